@@ -45,29 +45,29 @@ func uniqueDefs(scope ast.Node) map[string]ast.Expr {
 	})
 	out := map[string]ast.Expr{}
 	for n, e := range def {
-		if count[n] == 1 && pureRead(e) {
+		if count[n] == 1 && pureReadScan(e) {
 			out[n] = e
 		}
 	}
 	return out
 }
 
-func pureRead(e ast.Expr) bool {
+func pureReadScan(e ast.Expr) bool {
 	switch x := e.(type) {
 	case *ast.Ident, *ast.BasicLit:
 		return true
 	case *ast.SelectorExpr:
-		return pureRead(x.X)
+		return pureReadScan(x.X)
 	case *ast.ParenExpr:
-		return pureRead(x.X)
+		return pureReadScan(x.X)
 	case *ast.BinaryExpr:
-		return pureRead(x.X) && pureRead(x.Y)
+		return pureReadScan(x.X) && pureReadScan(x.Y)
 	case *ast.UnaryExpr:
-		return x.Op != token.ARROW && pureRead(x.X)
+		return x.Op != token.ARROW && pureReadScan(x.X)
 	case *ast.CallExpr:
 		switch src(x.Fun) {
 		case "int64", "uint64", "int", "len":
-			return len(x.Args) == 1 && pureRead(x.Args[0])
+			return len(x.Args) == 1 && pureReadScan(x.Args[0])
 		}
 	}
 	return false
